@@ -1,6 +1,217 @@
-(* C19 - property theorems only (placeholder while the proofs are being written) *)
-From Coq Require Import List NArith ZArith.
-From GoMC Require Import Model.C19.
-Theorem C19_placeholder : cbGuard = 124%Z.
+(* C19 - bot and server gate interoperate: property theorems only.
+   Model: Model/C19.v (two sequential machines over FIFO frame channels; play-phase queues; event
+   dispatcher).  Proofs: Proofs/C19_net.v (confluence of two deterministic processes over FIFO channels),
+   Proofs/C19_gate.v (reference runs), Proofs/C19_play.v, Proofs/C19_disp.v.
+   offline.NameToUUID, the LoginChecker, the status handler, the handlers' verdicts and zlib are
+   explicit parameters of the statements; nothing is assumed globally. *)
+From Coq Require Import List NArith ZArith Bool Permutation.
+From GoMC Require Import Base.Bytes Base.Dec Gen.Consts Model.C05 Model.C07 Model.C19
+  Proofs.C07 Proofs.C19_net Proofs.C19_gate Proofs.C19_play Proofs.C19_disp.
+Import ListNotations.
+Open Scope Z_scope.
+
+(* ------------------------------------------------------------------ join *)
+(* For EVERY player name, claimed UUID, address, MojangLoginHandler.Threshold (any Go int), LoginChecker
+   that lets the player in (or none), and EVERY interleaving `sch` of the two goroutines (a scheduled
+   goroutine that is blocked or has returned stays put), with a ConfigHandler that sends Finish and
+   reads the acknowledgement:
+   there is ONE final state f - bot joined, AcceptPlayer called, both hold the name the bot sent and
+   offline_uuid(name), the server holds the bot's protocol number, both net.Conn hold the same
+   threshold, nothing is in flight, the transcripts are exactly join_c2s / join_s2c - such that the
+   run makes at most n effective steps, has decoded every frame so far under the threshold it was
+   encoded with (clean), can only come to rest in f, can always be completed to f, and a side that has
+   returned has returned in its final state (so join() never returns an error and AcceptConn never
+   returns without calling AcceptPlayer).
+   Guard: sc_cfg = CfgFinishOnly excludes exactly the stock server.Configurations (C19_join_refuted). *)
+Theorem C19_join_partial :
+  forall (offline_uuid : list N -> list N) (bc : bcfg) (sc : scfg),
+  sc_cfg sc = CfgFinishOnly -> accepts offline_uuid sc (bc_name bc) ->
+  exists (f : sys bot srv) (n : nat),
+    joined_state offline_uuid bc sc f /\
+    every_interleaving offline_uuid bc sc (join_init bc) f n.
+Proof. exact join_all. Qed.
+
+(* the stock server.Configurations: for EVERY name, threshold and interleaving the join FAILS - the bot
+   stops with a registry error (the packet starts with an NBT compound, not a registry id) while the
+   server has already called AcceptPlayer; the Finish frame stays unread. *)
+Theorem C19_join_refuted :
+  forall (offline_uuid : list N -> list N) (bc : bcfg) (sc : scfg),
+  sc_cfg sc = CfgStock -> accepts offline_uuid sc (bc_name bc) ->
+  exists (f : sys bot srv) (n : nat),
+    stock_state bc sc f /\ every_interleaving offline_uuid bc sc (join_init bc) f n.
+Proof. exact stock_all. Qed.
+
+(* refusal: when the LoginChecker refuses (name, offline uuid, the bot's protocol number) with `reason`,
+   every interleaving ends with the bot returning DisconnectErr(reason) from the login stage and the
+   server closed WITHOUT AcceptPlayer; the reason travels as a JSON text component under the threshold
+   in force (set-compression is sent before the verdict).  Any ConfigHandler. *)
+Theorem C19_refuse :
+  forall (offline_uuid : list N -> list N) (bc : bcfg) (sc : scfg) (reason : list N),
+  refuses offline_uuid sc (bc_name bc) reason ->
+  exists (f : sys bot srv) (n : nat),
+    refused_state offline_uuid bc sc reason f /\
+    every_interleaving offline_uuid bc sc (join_init bc) f n.
+Proof. exact refuse_all. Qed.
+
+(* ------------------------------------------------------------------ status ping *)
+(* PingAndList against the same gate: for every interleaving the bot returns exactly the JSON produced
+   by the status handler for the bot's protocol number, the pong echoes the bot's time stamp, both
+   ends stay uncompressed, the server's loop has used its two rounds. *)
+Theorem C19_status :
+  forall (offline_uuid : list N -> list N) (bc : bcfg) (sc : scfg) (json : list N),
+  sc_status sc bot_ProtocolVersion = Some json ->
+  exists (f : sys bot srv) (n : nat),
+    status_state bc json f /\ every_interleaving offline_uuid bc sc (ping_init bc) f n.
+Proof. exact status_all. Qed.
+
+(* ------------------------------------------------------------------ play phase *)
+(* For EVERY pair of thresholds and EVERY sequence of events (application writes on either side, the
+   bot's writer / reader goroutines, reads on either side, in any order and number), at every moment:
+   what the bot wrote = what the server received ++ what is on the wire ++ what is in the send queue
+   (and symmetrically) - nothing lost, duplicated, reordered or altered; frames in flight carry the
+   sender's threshold; with equal thresholds no frame was decoded under another one; once the stages
+   are empty each side has received exactly what the other wrote. *)
+Theorem C19_play :
+  forall (tb ts : Z) (es : list pev),
+  let x := prun tb ts es in
+  bot_writes es = p_srv_got x ++ map snd (p_c2s x) ++ p_sendq x /\
+  srv_writes es = p_bot_got x ++ p_recvq x ++ map snd (p_s2c x) /\
+  tagged tb (p_c2s x) /\ tagged ts (p_s2c x) /\
+  (tb = ts -> p_bad x = false) /\
+  (pdrained x -> p_srv_got x = bot_writes es /\ p_bot_got x = srv_writes es).
+Proof. exact play_conservation. Qed.
+
+(* whatever has happened, the stages can be emptied without any further write *)
+Theorem C19_play_drainable :
+  forall (tb ts : Z) (es : list pev), exists es', no_writes es' /\ pdrained (prun tb ts (es ++ es')).
+Proof. exact play_drainable. Qed.
+
+(* byte level: the frames in flight in either direction, each packed by Packet.Pack under the
+   threshold it is tagged with, are recovered by a receiver holding that threshold packet by packet,
+   in order, intact, for packets of any size in the protocol's domain (C07) *)
+Theorem C19_play_wire :
+  forall (deflate : list N -> list N) (inflate : list N -> option (list N)) (t : Z) (q : list (Z * ppkt)),
+  zlib_inverse deflate inflate -> zlib_fits deflate -> tagged t q ->
+  forall (upools : list (list N)) (old : rstate) (rest : list N),
+  Forall in_domain (map snd q) -> length upools = length q ->
+  run_flat (unpack_seq inflate t upools old) (wire deflate q ++ rest) = FOk (thread old (map snd q)) rest.
+Proof. exact wire_decodes. Qed.
+
+(* ------------------------------------------------------------------ dispatcher *)
+(* sortPacketHandlers: descending priority, registration order inside one priority, a permutation;
+   and ANY list with the first two properties is this list (the result does not depend on the sort
+   algorithm as long as it is stable) *)
+Theorem C19_dispatch_order :
+  forall l : list handler,
+  stable_desc_sort_of l (ssort l) /\ Permutation (ssort l) l /\
+  forall r, stable_desc_sort_of l r -> r = ssort l.
+Proof. exact ssort_all. Qed.
+
+(* after ANY sequence of AddListener / AddGeneric calls: the generic table is the stable descending
+   sort of everything registered as generic, handlers[i] that of the listeners with id i, both in
+   registration order; the sequence panics exactly when some listener id is outside [0, guard) *)
+Theorem C19_dispatch_tables :
+  forall rs : list reg,
+  if regs_valid rs then
+    exists e, register events_init rs = Some e /\
+              e_generic e = ssort (gen_of rs) /\
+              forall i, e_handlers e i = ssort (of_id i (lis_all rs))
+  else register events_init rs = None.
+Proof. exact register_tables. Qed.
+
+(* handlePacket: ONE pass over generic ++ handlers[id]; the calls made are the handlers up to and
+   including the first one that fails, and that handler's error is what is returned *)
+Theorem C19_dispatch_packet :
+  forall (fails : N -> N -> bool) (e : events) (p : pkt), valid_id (p_id p) = true ->
+  let hs := e_generic e ++ e_handlers e (p_id p) in
+  match snd (handle_packet fails e p) with
+  | None => fst (handle_packet fails e p) = map (mk p) hs /\ forall h, In h hs -> hfails fails p h = false
+  | Some o => exists pre h post, hs = pre ++ h :: post /\ (forall g, In g pre -> hfails fails p g = false) /\
+                hfails fails p h = true /\ o = OHandler (p_id p) (h_tag h) /\
+                fst (handle_packet fails e p) = map (mk p) (pre ++ [h])
+  end.
+Proof. exact packet_spec. Qed.
+
+(* HandleGame: every stream has a reading under the bundle grammar (stream_spec: singles, closed
+   bundles of fewer than 4096 packets, an unclosed tail, the 4096 limit), and for every such reading
+   the calls made are those of dispatching the packets d one after the other - singles as they come,
+   a bundle's packets contiguously and in order when its closing delimiter arrives - stopping at the
+   first handler error, which is the returned error *)
+Theorem C19_dispatch_game :
+  forall (fails : N -> N -> bool) (e : events) (ps : list pkt),
+  (exists d o, stream_spec ps d o) /\
+  forall d o, stream_spec ps d o -> handle_game fails e ps = finish (handle_all fails e d) o.
+Proof. exact game_all. Qed.
+
+(* nothing of a bundle is dispatched while it is open *)
+Theorem C19_dispatch_bundle_atomic :
+  forall (fails : N -> N -> bool) (e : events) (o1 : pkt) (b : list pkt) (o2 : pkt),
+  is_delim o1 = true -> is_delim o2 = true -> no_delim b -> Z.of_nat (length b) < bundle_cap ->
+  handle_game fails e (o1 :: b) = ([], OEnd) /\
+  handle_game fails e (o1 :: b ++ [o2]) = finish (handle_all fails e b) TEnd.
+Proof. exact bundle_atomic. Qed.
+
+(* ------------------------------------------------------------------ the hypotheses are satisfiable *)
+Definition ex_uuid (n : list N) : list N := rev n ++ [7%N].
+Definition ex_bc : bcfg :=
+  {| bc_name := [83;116;101;118;101]%N; bc_claim := []; bc_host := [104]%N; bc_port := 25565%N;
+     bc_plugin := fun _ _ => None; bc_cookie := fun _ => None; bc_registry_known := fun _ => false;
+     bc_time := 1700000000 |}.
+Definition ex_sc (thr : Z) (refuse : bool) (cfg : cfgmode) : scfg :=
+  {| sc_threshold := thr;
+     sc_checker := Some (fun _ _ p => if refuse then Some [110;111]%N else if p =? bot_ProtocolVersion then None else Some []);
+     sc_cfg := cfg; sc_registry_blob := [10;0]%N; sc_status := fun p => Some [123; Z.to_N p mod 256; 125]%N |}.
+
+Example C19_join_hyp_ok : accepts ex_uuid (ex_sc 256 false CfgFinishOnly) (bc_name ex_bc).
 Proof. reflexivity. Qed.
-Print Assumptions C19_placeholder.
+Example C19_refuse_hyp_ok : refuses ex_uuid (ex_sc 0 true CfgStock) (bc_name ex_bc) [110;111]%N.
+Proof. eexists. split; reflexivity. Qed.
+(* the machines really run: greedy schedule, threshold 256, 14 frames/steps, both joined *)
+Example C19_join_runs :
+  let f := grun_greedy ex_uuid ex_bc (ex_sc 256 false CfgFinishOnly) 100 (join_init ex_bc) in
+  b_ph (x_b f) = BJoined /\ s_ph (x_s f) = SJoined /\ b_uuid (x_b f) = [101;118;101;116;83;7]%N /\
+  b_thr (x_b f) = 256 /\ s_thr (x_s f) = 256 /\ length (x_s2c_hist f) = 3%nat.
+Proof. vm_compute. repeat split; reflexivity. Qed.
+(* a server that switched its threshold BEFORE sending set-compression would be caught by `clean`:
+   a frame tagged 256 read by a bot still at -1 *)
+Example C19_clean_is_sensitive :
+  seen_ok [(cbLoginCompression, 256, -1)] = false.
+Proof. reflexivity. Qed.
+Example C19_play_mismatch_detected :
+  p_bad (prun (-1) 256 [EBotWrite (5, [1%N]); EBotWriter; ESrvRead]) = true.
+Proof. reflexivity. Qed.
+Example C19_dispatch_runs :
+  let hs := [RGeneric [{| h_id := 0; h_prio := 0; h_tag := 1 |}];
+             RListener [{| h_id := 5; h_prio := 1; h_tag := 2 |}; {| h_id := 5; h_prio := 7; h_tag := 3 |};
+                        {| h_id := 5; h_prio := 1; h_tag := 4 |}];
+             RGeneric [{| h_id := 9; h_prio := 3; h_tag := 5 |}]] in
+  let ps := [{| p_id := 5; p_uid := 0 |}; {| p_id := 0; p_uid := 1 |}; {| p_id := 6; p_uid := 2 |};
+             {| p_id := 5; p_uid := 3 |}; {| p_id := 0; p_uid := 4 |}; {| p_id := 0; p_uid := 5 |};
+             {| p_id := 5; p_uid := 6 |}]%N in
+  match register events_init hs with
+  | Some e => handle_game (fun tag uid => (tag =? 4)%N && (uid =? 3)%N) e ps
+  | None => ([], OPanic)
+  end = ([(5,0);(1,0);(3,0);(2,0);(4,0); (5,2);(1,2); (5,3);(1,3);(3,3);(2,3);(4,3)]%N, OHandler 5 4%N).
+Proof. vm_compute. reflexivity. Qed.
+Example C19_stream_spec_inhabited :
+  stream_spec [{| p_id := 0; p_uid := 0 |}; {| p_id := 4; p_uid := 1 |}; {| p_id := 0; p_uid := 2 |}; {| p_id := 3; p_uid := 3 |}]%N
+              [{| p_id := 4; p_uid := 1 |}; {| p_id := 3; p_uid := 3 |}]%N TEnd.
+Proof.
+  apply (SBundle _ [{| p_id := 4; p_uid := 1%N |}] _ [{| p_id := 3; p_uid := 3%N |}] [{| p_id := 3; p_uid := 3%N |}] TEnd);
+    try reflexivity.
+  - repeat constructor.
+  - apply SSingle; [reflexivity|constructor].
+Qed.
+
+Print Assumptions C19_join_partial.
+Print Assumptions C19_join_refuted.
+Print Assumptions C19_refuse.
+Print Assumptions C19_status.
+Print Assumptions C19_play.
+Print Assumptions C19_play_drainable.
+Print Assumptions C19_play_wire.
+Print Assumptions C19_dispatch_order.
+Print Assumptions C19_dispatch_tables.
+Print Assumptions C19_dispatch_packet.
+Print Assumptions C19_dispatch_game.
+Print Assumptions C19_dispatch_bundle_atomic.
